@@ -6,7 +6,7 @@ import itertools
 import numpy as np
 
 from .. import contracts, gen, ref
-from ..core import FAILED
+from ..core import FAILED, fresh_result
 
 DECIDING = ["pred:is_completely_positive", "pred:is_herm_preserving", "pred:is_trace_preserving", "pred:is_unital", "pred:is_unitary",
             "pred:is_quantum_channel", "pred:is_positive", "pred:choi_rank", "pred:is_extremal",
@@ -323,6 +323,7 @@ def _b_depolarizing(ctx, spec, rng):
 
     d = int(rng.integers(2, 5))
     p = _param(rng, spec[2])
+    fresh_result(ctx, "builtin:depolarizing", depolarizing, (d, p))
     j = ctx.call(depolarizing, d, p)
     if j is FAILED:
         return
@@ -339,6 +340,7 @@ def _b_dephasing(ctx, spec, rng):
 
     d = int(rng.integers(2, 5))
     p = _param(rng, spec[2])
+    fresh_result(ctx, "builtin:dephasing", dephasing, (d, p))
     j = ctx.call(dephasing, d, p)
     if j is FAILED:
         return
@@ -507,6 +509,7 @@ def _b_reduction(ctx, spec, rng):
 
     d = int(rng.integers(2, 5))
     k = [1, d, d + 1, 2][spec[2] % 4]
+    fresh_result(ctx, "builtin:reduction", reduction, (d, k))
     j = ctx.call(reduction, d, k)
     if j is FAILED:
         return
